@@ -32,6 +32,78 @@ def fold(project: Project, module: Module, node: ast.AST, depth: int = 0, local=
             m2, val = obj
             return fold(project, m2, val, depth + 1)
         raise NotConstant(node.id)
+    # Enum classes of the package: `E.MEMBER.value`, `E.MEMBER.name`, a data-mixin member itself (`class E(str, Enum)`)
+    if isinstance(node, ast.Attribute):
+        em = _enum_member_of(project, module, node.value, local) if node.attr in ("value", "name") else None
+        if em is not None:
+            return em.value if node.attr == "value" else em.name
+        em = _enum_member_of(project, module, node, local)
+        if em is not None:
+            if em.mixin:
+                return em.value  # compares and hashes like its value
+            return em
+    if isinstance(node, (ast.ListComp, ast.SetComp, ast.GeneratorExp, ast.DictComp)) and len(node.generators) == 1 and not node.generators[0].is_async \
+            and (isinstance(node.generators[0].target, ast.Name) or (isinstance(node.generators[0].target, ast.Tuple) and all(isinstance(e, ast.Name) for e in node.generators[0].target.elts))):
+        g = node.generators[0]
+        members = _enum_members(project, module, g.iter)
+        items = members if members is not None else fold(project, module, g.iter, depth + 1, local)
+        if not isinstance(items, (list, tuple, set, frozenset, dict)):
+            raise NotConstant(ast.unparse(node)[:60])
+        out = []
+        for it in (sorted(items, key=repr) if isinstance(items, (set, frozenset)) else list(items)):
+            env = dict(local or {})
+            if isinstance(g.target, ast.Name):
+                env[g.target.id] = it
+            else:
+                if not isinstance(it, (tuple, list)) or len(it) != len(g.target.elts):
+                    raise NotConstant(ast.unparse(node)[:60])
+                for e_, v_ in zip(g.target.elts, it):
+                    env[e_.id] = v_
+            if all(fold(project, module, c, depth + 1, env) for c in g.ifs):
+                if isinstance(node, ast.DictComp):
+                    out.append((fold(project, module, node.key, depth + 1, env), fold(project, module, node.value, depth + 1, env)))
+                else:
+                    out.append(fold(project, module, node.elt, depth + 1, env))
+        if isinstance(node, ast.DictComp):
+            return dict(out)
+        return set(out) if isinstance(node, ast.SetComp) else out
+    if isinstance(node, ast.Compare) and len(node.ops) == 1:
+        a = fold(project, module, node.left, depth + 1, local)
+        b = fold(project, module, node.comparators[0], depth + 1, local)
+        op = node.ops[0]
+        try:
+            if isinstance(op, ast.Eq):
+                return a == b
+            if isinstance(op, ast.NotEq):
+                return a != b
+            if isinstance(op, ast.In):
+                return a in b
+            if isinstance(op, ast.NotIn):
+                return a not in b
+            if isinstance(op, (ast.Is, ast.IsNot)):
+                same = (a == b) if isinstance(a, EnumMember) or isinstance(b, EnumMember) else (a is b if (a is None or b is None or isinstance(a, bool) or isinstance(b, bool)) else a == b)
+                return same if isinstance(op, ast.Is) else not same
+            if isinstance(op, ast.Lt):
+                return a < b
+            if isinstance(op, ast.LtE):
+                return a <= b
+            if isinstance(op, ast.Gt):
+                return a > b
+            if isinstance(op, ast.GtE):
+                return a >= b
+        except Exception:
+            pass
+        raise NotConstant(ast.unparse(node)[:60])
+    if isinstance(node, ast.BoolOp):
+        vals = [fold(project, module, v, depth + 1, local) for v in node.values]
+        res = vals[0]
+        for v in vals[1:]:
+            res = (res and v) if isinstance(node.op, ast.And) else (res or v)
+        return res
+    if isinstance(node, ast.UnaryOp) and isinstance(node.op, ast.Not):
+        return not fold(project, module, node.operand, depth + 1, local)
+    if isinstance(node, ast.Attribute) and isinstance(node.value, ast.Name) and local and node.value.id in local and isinstance(local[node.value.id], EnumMember) and node.attr in ("value", "name"):
+        return getattr(local[node.value.id], node.attr)
     if isinstance(node, ast.Attribute) and isinstance(node.value, ast.Name):
         kind, obj = project.resolve_name(module.name, node.value.id)
         if kind == "module" and obj in project.modules:
@@ -66,10 +138,90 @@ def fold(project: Project, module: Module, node: ast.AST, depth: int = 0, local=
         if isinstance(f, ast.Attribute) and f.attr == "copy" and not node.args:
             v = fold(project, module, f.value, depth + 1, local)
             return v.copy() if hasattr(v, "copy") else v
-        if isinstance(f, ast.Name) and f.id in ("set", "frozenset", "list", "tuple") and len(node.args) == 1:
+        if isinstance(f, ast.Name) and f.id in ("set", "frozenset", "list", "tuple", "sorted", "dict") and len(node.args) == 1 and not node.keywords:
             v = fold(project, module, node.args[0], depth + 1, local)
-            return {"set": set, "frozenset": frozenset, "list": list, "tuple": tuple}[f.id](v)
+            return {"set": set, "frozenset": frozenset, "list": list, "tuple": tuple, "sorted": sorted, "dict": dict}[f.id](v)
+        if isinstance(f, ast.Attribute) and f.attr == "get" and 1 <= len(node.args) <= 2 and not node.keywords:
+            v = fold(project, module, f.value, depth + 1, local)
+            if isinstance(v, dict):
+                k = fold(project, module, node.args[0], depth + 1, local)
+                d = fold(project, module, node.args[1], depth + 1, local) if len(node.args) == 2 else None
+                try:
+                    return v.get(k, d)
+                except TypeError:
+                    raise NotConstant(ast.unparse(node)[:60])
+        if isinstance(f, ast.Attribute) and f.attr in ("items", "keys", "values") and not node.args and not node.keywords:
+            v = fold(project, module, f.value, depth + 1, local)
+            if isinstance(v, dict):
+                return list(getattr(v, f.attr)())
+        # a module-level helper of the package whose body is one `return <expression>`: the expression over its arguments
+        if isinstance(f, ast.Name) and not node.keywords:
+            kind, obj = project.resolve_name(module.name, f.id)
+            if kind == "func":
+                body = [s_ for s_ in obj.node.body if not (isinstance(s_, ast.Expr) and isinstance(s_.value, ast.Constant))]
+                params = [a.arg for a in obj.node.args.args]
+                if len(body) == 1 and isinstance(body[0], ast.Return) and body[0].value is not None and len(params) == len(node.args) and not obj.node.args.vararg and not obj.node.args.kwonlyargs:
+                    env = {p_: fold(project, module, a_, depth + 1, local) for p_, a_ in zip(params, node.args)}
+                    return fold(project, obj.module, body[0].value, depth + 1, env)
     raise NotConstant(ast.unparse(node)[:60])
+
+
+class EnumMember:
+    """A member of an Enum class defined in the package (read from its class body, never executed)."""
+
+    def __init__(self, cls, name, value, mixin):
+        self.cls, self.name, self.value, self.mixin = cls, name, value, mixin
+
+    def __repr__(self):
+        return f"<{self.cls}.{self.name}: {self.value!r}>"
+
+    def __eq__(self, other):
+        if isinstance(other, EnumMember):
+            return (self.cls, self.name) == (other.cls, other.name)
+        return self.mixin and self.value == other
+
+    def __hash__(self):
+        return hash(self.value) if self.mixin else hash((self.cls, self.name))
+
+
+_ENUM_BASES = {"Enum", "IntEnum", "StrEnum", "Flag", "IntFlag"}
+
+
+def _enum_members(project: Project, module: Module, node: ast.AST):
+    """Members (in definition order) if `node` names an Enum class of the package, else None."""
+    if not isinstance(node, ast.Name):
+        return None
+    kind, obj = project.resolve_name(module.name, node.id)
+    if kind != "class":
+        return None
+    bases = [ast.unparse(b).split(".")[-1] for b in obj.node.bases]
+    if not any(b in _ENUM_BASES for b in bases):
+        return None
+    mixin = any(b in ("str", "int", "IntEnum", "StrEnum") for b in bases)
+    out = []
+    for n in obj.node.body:
+        if isinstance(n, ast.Assign) and len(n.targets) == 1 and isinstance(n.targets[0], ast.Name) and not n.targets[0].id.startswith("_"):
+            try:
+                v = fold(project, obj.module, n.value)
+            except NotConstant:
+                raise NotConstant(f"{obj.name}.{n.targets[0].id}")
+            if isinstance(v, tuple) and len(v) >= 1 and mixin:
+                v = v[0]
+            out.append(EnumMember(obj.name, n.targets[0].id, v, mixin))
+    return out
+
+
+def _enum_member_of(project: Project, module: Module, node: ast.AST, local=None):
+    """`E.MEMBER` (or a local bound to a member) → EnumMember, else None."""
+    if isinstance(node, ast.Name) and local and isinstance(local.get(node.id), EnumMember):
+        return local[node.id]
+    if isinstance(node, ast.Attribute) and isinstance(node.value, ast.Name):
+        ms = _enum_members(project, module, node.value)
+        if ms is not None:
+            for m in ms:
+                if m.name == node.attr:
+                    return m
+    return None
 
 
 class Opaque:
@@ -108,3 +260,47 @@ def try_fold(project: Project, module: Module, node: ast.AST, local=None) -> Opt
         return fold(project, module, node, local=local)
     except NotConstant:
         return None
+
+
+def fold_function(project: Project, func, argvals, depth: int = 0):
+    """Value a package function returns for constant arguments, read off its body: straight-line assignments to
+    locals, if/elif/else on foldable tests, `return <foldable expression>`; docstrings and logging calls are skipped.
+    Raises NotConstant for anything else (loops, try, calls that are not foldable).  Nothing of the repository is executed."""
+    params = [a.arg for a in func.node.args.args]
+    if len(params) != len(argvals):
+        raise NotConstant("arity")
+    env = dict(zip(params, argvals))
+
+    class _Ret(Exception):
+        def __init__(self, v):
+            self.v = v
+
+    def run(stmts):
+        for s_ in stmts:
+            if isinstance(s_, ast.Expr):
+                if isinstance(s_.value, ast.Constant):
+                    continue
+                if isinstance(s_.value, ast.Call) and ast.unparse(s_.value.func).split(".")[0] in ("logging", "logger", "log"):
+                    continue
+                raise NotConstant(ast.unparse(s_)[:60])
+            if isinstance(s_, (ast.Assign, ast.AnnAssign)):
+                tg = s_.targets[0] if isinstance(s_, ast.Assign) else s_.target
+                if not isinstance(tg, ast.Name) or s_.value is None or (isinstance(s_, ast.Assign) and len(s_.targets) != 1):
+                    raise NotConstant(ast.unparse(s_)[:60])
+                env[tg.id] = fold(project, func.module, s_.value, depth + 1, env)
+                continue
+            if isinstance(s_, ast.If):
+                run(s_.body if fold(project, func.module, s_.test, depth + 1, env) else s_.orelse)
+                continue
+            if isinstance(s_, ast.Return):
+                raise _Ret(fold(project, func.module, s_.value, depth + 1, env) if s_.value is not None else None)
+            if isinstance(s_, ast.Pass):
+                continue
+            raise NotConstant(type(s_).__name__)
+
+    try:
+        run(func.node.body)
+    except _Ret as r:
+        return r.v
+    return None
+
